@@ -298,10 +298,12 @@ pub fn run(ctx: &Ctx, rec: &mut Rec) {
             if i % n != w {
                 continue;
             }
+            // identity representatives (and every third element) go through both allocation paths
+            let paths: Vec<bool> = if e.m.x == b(0) || i % 3 == 0 { vec![false, true] } else { vec![i % 2 == 1] };
+            for via_affine in paths {
             rec.form("public input: instance assignment");
-            rec.eval(&("instance", e.key(), coords(&e.l).2.to_bytes_le()), false);
+            rec.eval(&("instance", e.key(), coords(&e.l).2.to_bytes_le(), via_affine), false);
             let l = e.l;
-            let via_affine = i % 2 == 1;
             rec.count(if via_affine { "public inputs allocated from AffinePoint" } else { "public inputs allocated from Element" }, 1);
             let res = guarded(|| -> Result<(Vec<Fq>, Vec<Fq>, Fq), String> {
                 let cs = new_cs(false);
@@ -320,9 +322,10 @@ pub fn run(ctx: &Ctx, rec: &mut Rec) {
                 Ok(Ok((inst, tcf, enc_f))) => {
                     let want_model = fq(&ctx.c.encode_spec_fe(&e.m).unwrap());
                     if inst.len() != 2 || inst[0] != Fq::ONE || inst[1] != enc_f || tcf != vec![enc_f] || enc_f != want_model {
-                        rec.violation(format!("{P}:public-input:instance-assignment"), format!("instance assignment {:?} / to_field_elements {:?} is not [1, encoding] = {}", inst.iter().map(|x| hexs(&fqb(x))).collect::<Vec<_>>(), tcf.iter().map(|x| hexs(&fqb(x))).collect::<Vec<_>>(), hexs(&fqb(&want_model))), json!({"element": el_json(&e.l), "class": e.class}));
+                        rec.violation(format!("{P}:public-input:instance-assignment"), format!("instance assignment {:?} / to_field_elements {:?} is not [1, encoding] = {} (allocated from {})", inst.iter().map(|x| hexs(&fqb(x))).collect::<Vec<_>>(), tcf.iter().map(|x| hexs(&fqb(x))).collect::<Vec<_>>(), hexs(&fqb(&want_model)), if via_affine { "AffinePoint" } else { "Element" }), json!({"element": el_json(&e.l), "class": e.class}));
                     }
                 }
+            }
             }
         }
     });
